@@ -53,6 +53,12 @@ GRAMMARS = {
 # with directly empty alternatives: soundness + determinism only (the optimum is exact only without them)
 GRAMMARS_EMPTY = {
     'nullamb': (Grammar([Rule('start', [[N('a'), N('a')]]), Rule('a', [[A], []])], declare=['A']), ['A'], 2),
+    # a directly empty alternative next to a non-empty alternative that can match the empty span: the non-empty one is chosen whatever
+    # the priorities are
+    'emptyprec': (Grammar([Rule('start', [[N('opt'), X]]), Rule('opt', [[], [N('blank')]]), Rule('blank', [[Star(N('pad'))]]), Rule('pad', [[Y]])],
+                          declare=['X', 'Y']), ['X', 'Y'], 2),
+    'emptyprec2': (Grammar([Rule('start', [[N('opt'), X, N('opt')]]), Rule('opt', [[N('blank'), N('blank')], []]), Rule('blank', [[], [Y]])],
+                           declare=['X', 'Y']), ['X', 'Y'], 2),
 }
 
 
@@ -127,6 +133,18 @@ def _rule_counts(d, acc):
     return acc
 
 
+def _empty_precedence_ok(d):
+    """No user rule in this derivation uses its directly empty alternative although another alternative of it can derive the empty string."""
+    if d[0] != 'n':
+        return True
+    alt = d[1]
+    if not alt.syms and not alt.rule.helper:
+        for a2 in alt.rule.alts:
+            if a2 is not alt and a2.syms and all(s_[0] == 'n' and s_[1] in NULLABLE for s_ in a2.syms):
+                return False
+    return all(_empty_precedence_ok(c) for c in d[2])
+
+
 def _term_counts(d, acc):
     if d[0] == 'n':
         for c in d[2]:
@@ -156,6 +174,7 @@ if P and P.get('kind') == 'sym':
         src = G.render().replace('start:', 'start.1:')
         LARK = Lark(src, parser='earley', lexer=hs.make_list_lexer(NAMES), ambiguity='resolve')
         SLOTS = sorted(r.name for r in G.rules)
+    NULLABLE = BNF.nullable()
     assert len(SLOTS) <= NP, SLOTS
     assert INPUTS
     WI = P.get('wi')
@@ -185,6 +204,9 @@ def _sym_body(rec, wi, ps):
         if not cand:
             return hs.fail(rec, 'resolved tree is not a derivation of the input', input=w, got=got)
     if EMPTY:
+        with hs.untraced():
+            if not any(_empty_precedence_ok(ds[i]) for i in cand):
+                return hs.fail(rec, 'a directly empty alternative was chosen where a non-empty alternative of the rule matches the same (empty) span', input=w, got=got)
         return True
     # symbolic part: total priorities are linear forms in the symbolic priorities; the solver decides >= for all values on this path
     totals = []
